@@ -192,7 +192,7 @@ var genericValues = []string{
 	":%{unknown}", ":%{unknown.k}", ":%{foo.k}", ":'unclosed", ":a=b", ":=b", ":a=", ":=", ": x ", `:"x"`, ":''", ":'", ":" + big,
 	":\\", ":x\\", ":\\'", ":'\\'", ":a:b", ":a,b", ":!", ":!tx", ":tx.", ":tx.=1", ":!tx.", ":tx", ":TX.A=%{TX.B}", ":tx.a=+", ":tx.a=-", ":tx.a=+x",
 	":tx.a=+%{tx.b}", ":tx.a=-%{tx.n}", ":tx.n=+99999999999999999999", ":tx.n=-9223372036854775808", ":tx.a=%{tx.a}%{tx.b}x", ":ip.a=1", ":!ip.a",
-	":\x00", ":\xff",
+	":\x00", ":\xff", ":%", ":x%", ":%%", ":%{tx.b}%", ":{", ":}", ":%}", ":%{tx.b}{", ":tx.a=%", ":tx.%=1",
 }
 
 var specificValues = map[string][]string{
@@ -351,7 +351,7 @@ func genCtl(e *emitter, vars []string) {
 	for _, opt := range []string{"ruleRemoveTargetById=91", "ruleRemoveTargetByTag=t1", "ruleRemoveTargetByMsg=m1"} {
 		for _, vn := range append(append([]string{}, vars...), "FOO") {
 			for _, sel := range []string{"", ":k", ":/k/"} {
-				e.holeAt("ctl-target:"+opt[:strings.IndexByte(opt, '=')], fmt.Sprintf("SecAction \"id:1,phase:1,pass,ctl:%s;%s%s\"\nSecRule %s \"@rx k\" \"id:2,phase:2,pass,tag:t1,msg:'m1'\"", opt, vn, sel, vn), false, false)
+				e.holeAt("ctl-target:"+opt[:strings.IndexByte(opt, '=')], fmt.Sprintf("SecAction \"id:1,phase:1,pass,ctl:%s;%s%s\"\nSecRule %s \"@unconditionalMatch\" \"id:2,phase:2,pass,tag:t1,msg:'m1'\"", opt, vn, sel, vn), false, false)
 			}
 		}
 	}
@@ -366,7 +366,7 @@ func genCtl(e *emitter, vars []string) {
 
 var operatorArgs = []string{
 	"", " ", " x", " k", " %{tx.b}", " %{JSON.x}", " %{tx.", " %{}", " (", " [a", " a{1001}", " a{2,1}", " \\", " 1", " -1", " 0",
-	" 99999999999999999999", " 1-255", " 255-1", " 1,2,300", " a,b", " -", " ,", " 1-", " 32-126,", " 10.0.0.1", " 10.0.0.0/8",
+	" 99999999999999999999", " 1-255", " 255-1", " 1,2,300", " 255", " 256", " 0-256", " 0-255", " -1-5", " a,b", " -", " ,", " 1-", " 32-126,", " 10.0.0.1", " 10.0.0.0/8",
 	" 10.0.0.0/99", " ::1", " 10.0.0.1,::1, 10.0.0.0/8", " 10.0.0.1,x", " x|y", " a b c", " |", " @@FX@@/pm.txt", " @@FX@@/ip.txt",
 	" @@FX@@/schema.json", " @@FX@@/bad.json", " @@FX@@/missing", " @@FX@@", " pm.txt", " d1", " dip", " nodataset", " /p/{id}", " /{",
 	" {}", " /{id}/{id}", " /{(}", " cl .*", " us \\d", " zz x", " cl (", " cl", " cl  ", " \\xff", " (?i)K", " (?P<n>k)(?P<n2>.)",
